@@ -494,10 +494,9 @@ pub fn run(ctx: &crate::RunCtx) -> (Summary, Vec<Violation>) {
             continue;
         }
         let (bytes, what) = crate::foreign::stream(ctx.seed, j);
-        if ctx.child == 0 {
-            if let Some(k) = what.rsplit("unusual: ").next() {
-                *sum.probes.entry(format!("foreign_{k}")).or_default() += 1;
-            }
+        // (a per-case count: every child counts its own share, the merged sum does not depend on the split)
+        if let Some(k) = what.rsplit("unusual: ").next() {
+            *sum.probes.entry(format!("foreign_{k}")).or_default() += 1;
         }
         raw_cases.push((bytes, what, "foreign_stream"));
         if raw_cases.len() >= 256 {
